@@ -9,8 +9,10 @@ from .. import tlc
 from ..common import Report, pmap
 from ..trackdrv import scenario
 
-FAMILY = r"^vert\.|^run\.crashed|^lattice|^setup\.valid"
-DRIVERS = {"tracker-vertical": ("harness.trackdrv", "track_trace", "TrackTrace", FAMILY),
+FAMILY = r"^track\.every_step|^trace\.incomplete|^vert\.|^run\.crashed|^lattice|^setup\.valid"
+FAMILY_E = r"^move\.z_unchanged|^run\.crashed"
+DRIVERS = {"e2e-depth-untouched": ("harness.e2e", "run_e2e", "LadimTrace", FAMILY_E),
+           "tracker-vertical": ("harness.trackdrv", "track_trace", "TrackTrace", FAMILY),
            "tracker-column-exhaustive": ("harness.trackdrv", "track_trace", "TrackTrace", FAMILY)}
 
 
@@ -55,6 +57,12 @@ def run(tier, seed):
     scs = scenarios(tier, seed)
     traces = pmap("harness.trackdrv", "track_trace", scs)
     rep.add_tv("tracker-vertical", "TrackTrace", scs, traces, tlc.validate_traces("TrackTrace", traces), family=FAMILY)
+    # complete runs without vertical motion: the tracker leaves the depth alone (all schemes, land, deaths)
+    from ..e2e import base_scenario
+    re_ = random.Random(seed + 43)
+    es = [base_scenario(re_) for _ in range(160 if tier == "thorough" else 40)]
+    et = pmap("harness.e2e", "run_e2e", es)
+    rep.add_tv("e2e-depth-untouched", "LadimTrace", es, et, tlc.validate_traces("LadimTrace", et, batch_events=1500), family=FAMILY_E)
     cs = column_scenarios(tier, seed)
     ctr = pmap("harness.trackdrv", "track_trace", cs)
     rep.add_tv("tracker-column-exhaustive", "TrackTrace", cs, ctr, tlc.validate_traces("TrackTrace", ctr, batch_events=4, timeout=1800), family=FAMILY)
